@@ -1058,4 +1058,204 @@ example : (judge fsEx (fsEx ++ [("tmp#0", "X")]) [("a.txt", "XY")] .raised).hold
     (judge fsEx [("a.txt", "N2"), ("b.txt", "BB")] [("a.txt", "N1"), ("a.txt", "N2")] .ok).holds = true := by
   decide +kernel
 
+/-! ### A fault at ANY call between the close of the temp file and the rename
+
+The code may make further calls on the temp file before `os.replace` (stat / chmod / chown / utime / fsync …; the
+harness family `stepfault` reads them off a traced run instead of a list). `extra`: any list of operations that move
+no content; one `raise` / BaseException at ANY position of `extra ++ [replace]`, the rename included. -/
+
+/-- An operation that moves no content and may fail (stat / chmod / chown / utime / fsync of the temp file, …). -/
+def NoContent (op : Op) : Prop := ∀ st, apply op st = some st
+
+theorem fault_anywhere_before_rename (extra : List Op) (hx : ∀ op ∈ extra, NoContent op) (dst t : String)
+    (k : Fault) (hk : k = .raise ∨ k = .raiseBase) :
+    ∀ (p i : Nat) (st : St), st.temp = some t → p ≤ extra.length →
+      (exec {} (Plan.single (i + p) k) i st (extra ++ [.replace dst])).1 = .raised (i + p) ∧
+      ∃ pre, (exec {} (Plan.single (i + p) k) i st (extra ++ [.replace dst])).2
+          = pre ++ [("removeTemp", st.fs.erase t)] ∧ ∀ ev ∈ pre, ev.2 = st.fs := by
+  induction extra with
+  | nil =>
+    intro p i st ht hp
+    have : p = 0 := by simpa using hp
+    subst this
+    rcases hk with rfl | rfl <;>
+      exact ⟨by simp [exec, Plan.single, handler, ht, Op.isReplace, Op.isCloseIn],
+        [((Op.replace dst).label ++ "!", st.fs)],
+        by simp [exec, Plan.single, handler, ht, Op.isReplace, Op.isCloseIn], by simp⟩
+  | cons op rest ih =>
+    intro p i st ht hp
+    cases p with
+    | zero =>
+      rcases hk with rfl | rfl <;>
+        exact ⟨by simp [exec, Plan.single, handler, ht],
+          [(op.label ++ "!", st.fs)], by simp [exec, Plan.single, handler, ht], by simp⟩
+    | succ p =>
+      have hne : ¬ (i = i + (p + 1)) := by omega
+      have hop : apply op st = some st := hx op (by simp) st
+      have ih' := ih (fun o ho => hx o (by simp [ho])) p (i + 1) st ht (by simpa using hp)
+      have e : i + 1 + p = i + (p + 1) := by omega
+      rw [e] at ih'
+      obtain ⟨h1, pre, h2, h3⟩ := ih'
+      simp only [List.cons_append, exec, Plan.single, hne, if_false, hop]
+      refine ⟨h1, (op.label, st.fs) :: pre, by simp [h2], ?_⟩
+      intro ev hev
+      rcases List.mem_cons.mp hev with rfl | h
+      · rfl
+      · exact h3 ev h
+
+/-- … so the directory after the raise is the one before the rewrite's tail minus the temp file: the source and
+    every other entry as they were, no temp file. -/
+theorem fault_anywhere_before_rename_final (extra : List Op) (hx : ∀ op ∈ extra, NoContent op) (dst t : String)
+    (k : Fault) (hk : k = .raise ∨ k = .raiseBase) (p i : Nat) (st : St) (ht : st.temp = some t)
+    (hp : p ≤ extra.length) :
+    final st.fs (exec {} (Plan.single (i + p) k) i st (extra ++ [.replace dst])).2 = st.fs.erase t := by
+  obtain ⟨_, pre, h2, _⟩ := fault_anywhere_before_rename extra hx dst t k hk p i st ht hp
+  simp [final, h2]
+
+/-- The hypotheses are satisfiable: stat, chmod, chown in front of the rename (labels of no-content operations),
+    the fault at the third of them. -/
+example : (exec {} (Plan.single 7 .raise) 5 { fs := [("a.txt", "AA"), ("tmp#0", "XY")], temp := some "tmp#0" }
+      ([.sameFile, .close, .fmt 0] ++ [.replace "a.txt"])).1 = .raised 7 ∧
+    final [("a.txt", "AA"), ("tmp#0", "XY")]
+      (exec {} (Plan.single 7 .raise) 5 { fs := [("a.txt", "AA"), ("tmp#0", "XY")], temp := some "tmp#0" }
+        ([.sameFile, .close, .fmt 0] ++ [.replace "a.txt"])).2 = [("a.txt", "AA")] := by
+  have hx : ∀ op ∈ [Op.sameFile, .close, .fmt 0], NoContent op := by
+    intro op h
+    simp at h
+    rcases h with rfl | rfl | rfl <;> intro st <;> rfl
+  exact ⟨(fault_anywhere_before_rename _ hx "a.txt" "tmp#0" .raise (Or.inl rfl) 2 5 _ rfl (by decide)).1,
+    fault_anywhere_before_rename_final _ hx "a.txt" "tmp#0" .raise (Or.inl rfl) 2 5 _ rfl (by decide)⟩
+
+section WholeRunExtra
+
+variable {fs0 : Fs} {src dst tmp : String} {cfg : Cfg} {plan : Plan}
+
+/-- The in-place operation list with further calls `extra` on the temp file between the close(s) and the rename. -/
+def inplaceOpsX (early : Bool) (src dst tmp : String) (body extra : List Op) : List Op :=
+  headOps early src tmp ++ (body ++ ((if early then [.close] else [.close, .closeIn]) ++ (extra ++ [.replace dst])))
+
+theorem inplaceOpsX_nil (early : Bool) (src dst tmp : String) (body : List Op) :
+    inplaceOpsX early src dst tmp body [] = inplaceOps early src dst tmp body := by
+  cases early <;> simp [inplaceOpsX, inplaceOps, tailOps]
+
+/-- `extra`, then the rename, from the state in which the temp file holds `acc`: everything `Post` says — for EVERY
+    plan (any number of raise / BaseException / kill faults at any of these calls). -/
+theorem exec_extra_tail (extra : List Op) (hx : ∀ op ∈ extra, NoContent op) (h0 : fs0.get? tmp = none) (acc : String) :
+    ∀ i, Post fs0 dst tmp acc cfg plan (wst fs0 tmp acc).fs
+      (exec cfg plan i (wst fs0 tmp acc) (extra ++ [.replace dst])) := by
+  induction extra with
+  | nil => intro i; exact exec_replace i acc h0
+  | cons op rest ih =>
+    intro i
+    exact exec_idop _ _ i acc h0 (hx op List.mem_cons_self _)
+      (ih (fun o ho => hx o (List.mem_cons_of_mem _ ho)) (i + 1))
+
+/-- The write phase in front of ANY tail that satisfies `Post` from the write-phase state. -/
+theorem exec_body_tail (T : List Op) (body : List Op) (hb : ∀ op ∈ body, op.isBody = true)
+    (h0 : fs0.get? tmp = none)
+    (hT : ∀ i acc, Post fs0 dst tmp acc cfg plan (wst fs0 tmp acc).fs (exec cfg plan i (wst fs0 tmp acc) T)) :
+    ∀ (i : Nat) (acc : String),
+      Post fs0 dst tmp (acc ++ newContent body) cfg plan (wst fs0 tmp acc).fs
+        (exec cfg plan i (wst fs0 tmp acc) (body ++ T)) := by
+  induction body with
+  | nil =>
+    intro i acc
+    simpa [newContent] using hT i acc
+  | cons op rest ih =>
+    intro i acc
+    have hAB : AB fs0 tmp (wst fs0 tmp acc).fs := Or.inr ⟨acc, rfl⟩
+    have hrest : ∀ op ∈ rest, op.isBody = true := fun o ho => hb o (List.mem_cons_of_mem _ ho)
+    have hop := hb op List.mem_cons_self
+    rw [List.cons_append]
+    cases op with
+    | fmt n =>
+      simp only [newContent]
+      exact exec_idop _ _ i acc h0 rfl (ih hrest (i + 1) acc)
+    | write n c =>
+      rw [exec]
+      cases hp : plan i with
+      | kill => exact Post.kill i hAB
+      | raise => exact handler_temp i _ _ acc (Or.inl hp) h0 rfl rfl
+      | raiseBase => exact base_temp i _ acc hp h0
+      | none =>
+        have hg : (fs0 ++ [(tmp, acc)]).get? tmp = some acc := Fs.get?_append_self h0
+        have hs : (fs0 ++ [(tmp, acc)]).set tmp (acc ++ c) = fs0 ++ [(tmp, acc ++ c)] :=
+          Fs.set_append_self h0
+        simp only [apply, wst, hg, hs, newContent]
+        have := ih hrest (i + 1) (acc ++ c)
+        rw [String.append_assoc] at this
+        exact Post.cons this (Or.inl (Or.inr ⟨acc ++ c, rfl⟩)) (Op.label_ne_rm (.write n c))
+    | sameFile => simp [Op.isBody] at hop
+    | openRead _ => simp [Op.isBody] at hop
+    | closeIn => simp [Op.isBody] at hop
+    | mkTemp _ => simp [Op.isBody] at hop
+    | openWrite _ _ => simp [Op.isBody] at hop
+    | close => simp [Op.isBody] at hop
+    | replace _ => simp [Op.isBody] at hop
+
+/-- The whole in-place rewrite with ANY further no-content calls on the temp file in front of the rename, under EVERY
+    fault plan: all of `Post` — at every instant the directory is the original one, the original one plus the temp
+    file, or (after the rename) the new one; a raise whose clean-up did not itself fail leaves exactly the original
+    directory; a kill leaves the original directory or that plus the temp file. -/
+theorem exec_inplaceX (early : Bool) (body extra : List Op) (hx : ∀ op ∈ extra, NoContent op)
+    (wf : WF fs0 src dst tmp body) (i : Nat) :
+    Post fs0 dst tmp (newContent body) cfg plan fs0
+      (exec cfg plan i { fs := fs0 } (inplaceOpsX early src dst tmp body extra)) := by
+  have h0 := wf.tmpFresh
+  have hc : Fs.contains fs0 src = true := by simpa [Fs.contains] using wf.srcExists
+  have hopen : apply (.openRead src) { fs := fs0 } = some { fs := fs0 } := by simp [apply, hc]
+  have hA : AB fs0 tmp fs0 := Or.inl rfl
+  have hT : ∀ i acc, Post fs0 dst tmp acc cfg plan (wst fs0 tmp acc).fs
+      (exec cfg plan i (wst fs0 tmp acc) ((if early then [.close] else [.close, .closeIn]) ++ (extra ++ [.replace dst]))) := by
+    intro i acc
+    cases early with
+    | true => exact exec_idop _ _ i acc h0 rfl (exec_extra_tail extra hx h0 acc (i + 1))
+    | false =>
+      exact exec_idop _ _ i acc h0 rfl (exec_idop _ _ (i + 1) acc h0 rfl (exec_extra_tail extra hx h0 acc (i + 1 + 1)))
+  have hmk : ∀ i, Post fs0 dst tmp (newContent body) cfg plan fs0
+      (exec cfg plan i { fs := fs0 } (.mkTemp tmp :: (body ++ ((if early then [.close] else [.close, .closeIn]) ++ (extra ++ [.replace dst]))))) := by
+    intro i
+    rw [exec]
+    cases hp : plan i with
+    | kill => exact Post.kill _ hA
+    | raise => exact handler_noTemp _ _ { fs := fs0 } (Or.inl hp) rfl rfl
+    | raiseBase => exact base_noTemp i _ hp
+    | none =>
+      simp only [apply, Fs.set_fresh h0]
+      refine Post.cons (cur' := fs0 ++ [(tmp, "")]) ?_ (Or.inl (Or.inr ⟨"", rfl⟩)) (Op.label_ne_rm (.mkTemp tmp))
+      have := exec_body_tail (dst := dst) (cfg := cfg) (plan := plan) _ body wf.bodyOps h0 hT (i + 1) ""
+      simpa [wst] using this
+  cases early with
+  | true =>
+    simp only [inplaceOpsX, headOps, if_true, List.cons_append, List.nil_append]
+    exact exec_pre _ _ i rfl (exec_pre _ _ (i + 1) hopen (exec_pre _ _ (i + 1 + 1) rfl (hmk (i + 1 + 1 + 1))))
+  | false =>
+    simp only [inplaceOpsX, headOps, Bool.false_eq_true, if_false, List.cons_append, List.nil_append]
+    exact exec_pre _ _ i rfl (exec_pre _ _ (i + 1) hopen (hmk (i + 1 + 1)))
+
+/-- Headline: whichever calls `extra` the code makes on the temp file before the rename, and whichever of ALL the
+    operations fault (EVERY plan): a raise (clean-up itself not failing) leaves exactly the original directory — source
+    intact, no temp file —, a kill the original directory or that plus the temp file. -/
+theorem fault_anywhere_whole_run (early : Bool) (body extra : List Op) (hx : ∀ op ∈ extra, NoContent op)
+    (wf : WF fs0 src dst tmp body) (plan : Plan) (i : Nat) :
+    let r := exec {} plan i { fs := fs0 } (inplaceOpsX early src dst tmp body extra)
+    (∀ j, r.1 = .raised j → (∀ ev ∈ r.2, ev.1 ≠ "removeTemp!") → final fs0 r.2 = fs0) ∧
+    (∀ j, r.1 = .killed j → AB fs0 tmp (final fs0 r.2)) ∧
+    (∀ ev ∈ r.2, AB fs0 tmp ev.2 ∨ (ev.1 = "replace" ∧ ev.2 = fs0.set dst (newContent body))) := by
+  intro r
+  have P := exec_inplaceX (cfg := {}) (plan := plan) early body extra hx wf i
+  exact ⟨fun j h hn => P.raised j h rfl rfl rfl hn, P.killed, P.shape⟩
+
+/-- Hypotheses satisfiable, conclusion concrete: stat / chown-like calls (operations 8 and 9) in front of the rename
+    (operation 10) of a StreamRewriter run; the second of them raises: error, directory exactly as before. -/
+example : (exec {} (Plan.single 9 .raise) 0 { fs := fsEx } (inplaceOpsX false "a.txt" "a.txt" "tmp#0" bodyEx [.sameFile, .fmt 0])).1 = .raised 9 ∧
+    final fsEx (exec {} (Plan.single 9 .raise) 0 { fs := fsEx } (inplaceOpsX false "a.txt" "a.txt" "tmp#0" bodyEx [.sameFile, .fmt 0])).2 = fsEx ∧
+    (exec {} Plan.clean 0 { fs := fsEx } (inplaceOpsX false "a.txt" "a.txt" "tmp#0" bodyEx [.sameFile, .fmt 0])).1 = .ok := by
+  decide +kernel
+
+example := fault_anywhere_whole_run (fs0 := fsEx) false bodyEx [.sameFile, .fmt 0]
+  (by intro op h; simp at h; rcases h with rfl | rfl <;> intro st <;> rfl) wfEx (Plan.single 9 .raise) 0
+
+end WholeRunExtra
+
 end Pypyr.C15
